@@ -1,11 +1,13 @@
 """Configuration of ./check C16 (see lib/registry.py for the fields)."""
 CFG = dict(
     claim="Theorems in coq/Props/C16.v over all label sequences of the small-step model coq/Model/Proxy.v (any number of peers, envelopes, "
-          "faults; any interleaving; any interceptor function): C16_accounting (what a connection is handed is, in order and once each, a "
+          "faults; any interleaving; any interceptor that is a function (source, destination) -> destination | reject - an interceptor that "
+          "rewrites other header fields is outside the model): C16_accounting (what a connection is handed is, in order and once each, a "
           "prefix of what was enqueued for it), C16_route (every accepted envelope passed the source check, went to the record named by the "
           "rewritten destination / last return-route hop, unchanged but for the routing fields, own name appended to the route record exactly "
           "once, return route popped), C16_drop_only_when_full, C16_no_loss and C16_no_loss_outstanding (at most B <= buffer envelopes ever "
-          "outstanding for a destination => nothing dropped, everything accepted handed on in order, once), C16_source_order, C16_pair_order, "
+          "outstanding for a destination => nothing dropped, everything accepted handed on in order, once), C16_source_order, C16_pair_order, C16_delivered_Q (in every quiescent state an idle live write loop has nothing buffered or in "
+          "flight: everything enqueued - below the buffer everything accepted - has been handed to the connection), "
           "C16_wire (nothing dropped for destination i => for every source j the envelopes of j among what i is handed are exactly, in order and "
           "once each, the envelopes accepted from j for i with the route applied: a reliable ordered wire that only rewrites routing fields), "
           "C16_dial_once, C16_redial, C16_return_route (the reply a server builds from the request's route record is routed back to the hop "
@@ -17,7 +19,7 @@ CFG = dict(
           "exploration (Check/C16red.v at build time, case kind CProxyRed on lock-step scenarios).",
     props="Props/C16.v",
     theorems=["C16_accounting", "C16_route", "C16_drop_only_when_full", "C16_no_loss", "C16_source_order", "C16_pair_order",
-              "C16_dial_once", "C16_redial", "C16_no_loss_outstanding", "C16_wire", "C16_return_route",
+              "C16_dial_once", "C16_redial", "C16_no_loss_outstanding", "C16_delivered_Q", "C16_wire", "C16_return_route",
               "C16_complete_means_complete_refuted"],
     imports=["Model.Proxy", "Check.C16c", "Check.C16red"],
     case_type="pxcase",
@@ -31,7 +33,7 @@ CFG = dict(
                  "5": "dial: newConnection was called for a name that had a live record (or twice), or an accepted envelope for a name without record did not make the proxy dial",
                  "6": "end-to-end: an RPC through the real Proxy ended differently from the same RPC on a direct connection",
                  "7": "attach race: after AddClient(X) had returned (racing with the routing of the first envelope addressed to X) an envelope accepted for X was not handed to X's attached connection, or X was dialled again",
-                 "8": "re-check of the exploration reduction: the reduced exploration of the model (Check/C16c.v) and the full one reach different sets of quiescent states at some step",
+                 "8": "(model against model; no change of /repo can produce it: it guards the check itself) re-check of the exploration reduction: the reduced exploration of the model (Check/C16c.v) and the full one reach different sets of quiescent states at some step",
                  "9": "re-check of the exploration reduction: the full exploration ran out of fuel (not compared)"},
     rule="lock-step in synctest bubbles on the real goat.Proxy with scripted peer transports (one group of actions, synctest.Wait, snapshot: "
          "envelopes handed to every connection with whole-envelope comparison modulo routing fields, newConnection calls, disconnect "
@@ -45,7 +47,11 @@ CFG = dict(
          "source - 1..4 real Servers (pre-attached / dialled on demand, 3 rewrites), unary + bidi + client-stream + server-stream RPCs with <= 12 "
          "envelopes outstanding per destination, compared with the direct-connection outcomes; free-running stress (3..10 peers, one goroutine "
          "per sender, paced and bursting) judged by the delivery predicates; a sample of lock-step scenarios (thorough: ~500) on which the "
-         "reduced and the full exploration of the model are compared outcome set by outcome set; attach race: AddClient(X) at the moment the first envelope for X is being routed - placed deterministically from a zerolog hook "
+         "reduced and the full exploration of the model are compared outcome set by outcome set; every envelope shape: all 288 combinations of body (token / none / empty / 64 KiB), status (none / code / code+message+details), trailer "
+         "(none / empty / metadata), reset (none / RST_STREAM / empty type / other type), request headers, on attached, return-route and "
+         "dial-on-demand paths, compared whole (proto.Equal) modulo destination, route record and return route; end-to-end resets: a stream "
+         "cancelled by the caller cancels the handler, a body for an unknown stream and undecodable metadata are answered by RST_STREAM, through "
+         "the proxy as on a direct connection; attach race: AddClient(X) at the moment the first envelope for X is being routed - placed deterministically from a zerolog hook "
          "inside the forwarding loop (40 rounds x GOMAXPROCS 1/4/16; thorough 400) and, as a PROBABILISTIC search, by free-running goroutines "
          "released by one barrier with seeded Gosched noise under GOMAXPROCS 1/4/16 for a fixed time (quick 3 s each: some 3000-6000 rounds "
          "each; thorough 60 s each) - judged by the predicate alone; each rig runs as 8 shard processes; a scenario in which the proxy holds a "
